@@ -124,6 +124,12 @@ func addImport(f *ast.File, name, path string) {
 	spec := &ast.ImportSpec{Name: ast.NewIdent(name), Path: &ast.BasicLit{Kind: token.STRING, Value: strconv.Quote(path)}}
 	for _, d := range f.Decls {
 		if gd, ok := d.(*ast.GenDecl); ok && gd.Tok == token.IMPORT {
+			// never touch a cgo declaration (import "C" must stay alone, right behind its preamble comment)
+			if len(gd.Specs) == 1 {
+				if is, ok := gd.Specs[0].(*ast.ImportSpec); ok && is.Path.Value == `"C"` {
+					continue
+				}
+			}
 			gd.Specs = append(gd.Specs, spec)
 			if !gd.Lparen.IsValid() {
 				gd.Lparen = gd.Pos()
